@@ -279,7 +279,7 @@ META = {
         "required": ["minimised", "family:threshold", "family:collection", "short_mode_runs", "slow_search_runs", "failure_mode:1", "failure_mode:2"],
         "show": ["checks_run", "minimised", "never_found"],
         "rule": "threshold properties over all 11 full-range integer kinds: thresholds +-2^j, +-(2^j+-1) for every j, type extremes and neighbours, random "
-                "magnitudes, both directions (quick: every third threshold, one seed; thorough: all x 5 seeds), and 'at least k elements' for "
+                "magnitudes, both directions (quick: every third threshold, one seed; thorough: all x 25 seeds), and 'at least k elements' for "
                 "SliceOf(Int()), SliceOf(Uint8()), String(), MapOf(Int(),String()), k in 0..32; -rapid.checks=200000 so that thresholds reachable only "
                 "through the top bit band are found; oracle: the value drawn in the final replay equals the boundary (closest-to-zero failing value; "
                 "exactly k elements, all zero for integer slices); never found / still minimising after 15s = inconclusive; "
